@@ -25,7 +25,7 @@ class FoldDict(dict):
     reference implementation (the class itself adds no behaviour)."""
 
 
-SCALAR_KEYS = ["name", "type", "group", "status", "data", "x", "2024", "0"]  # (digit-only keys are ordinary keys)
+SCALAR_KEYS = ["name", "type", "group", "status", "data", "x", "2024", "0", "straße", "οδος"]  # (digit-only and non-ASCII keys are ordinary keys)
 DICT_KEYS = ["web", "metadata", "legend"]
 LIST_KEYS = ["layers", "classes", "styles", "items"]
 WORDS = ["road", "roads", "Road", "rail", "ail", "", "a", "b", "water", "wat"]
